@@ -313,6 +313,14 @@ def drive(mod, cid, tier, seed, a, workdir, t0):
         specs = [dict(spec) for _ in range(reps)]
     else:
         specs = mod.cases(tier, seed)
+        # interpreter configurations: a check that sets OPTIMIZED_SAMPLE = (n_quick, n_thorough) gets that many of its own cases
+        # (evenly spaced over the list) repeated in an interpreter started with PYTHONOPTIMIZE=1 (`python -O`: assert statements
+        # and `if __debug__:` blocks of the library vanish)
+        n_opt = getattr(mod, "OPTIMIZED_SAMPLE", (0, 0))[0 if tier == "quick" else 1]
+        plain = [sp for sp in specs if not sp.get("_env") and sp.get("_timeout", 0) <= 300]
+        if n_opt and plain:
+            step = max(1, len(plain) // n_opt)
+            specs = specs + [dict(sp, _env={"PYTHONOPTIMIZE": "1"}) for sp in plain[(seed % step)::step][:n_opt]]
         if a.max_cases:
             specs = specs[: a.max_cases]
     pre = None
